@@ -364,6 +364,19 @@ def rule_window(report, prog, res):
         okk = len(fmts) == 1 and isinstance(fmts[0], str) and struct.calcsize(fmts[0]) == hs
         report.check(okk, 'C11-R3', key(c.qname, 'header_size == bytes read by decode_header'), dh.loc(),
                      '%s: header_size %r but decode_header reads %r' % (c.name, hs, fmts))
+    # a length field is used as it was read: re-writing it (clamping to the remaining size, say) turns a malformed frame into a
+    # different, accepted one instead of a DecodeError
+    for c, f in funcs:
+        for name in ('pdu_size', 'L'):
+            binds = [st for st in walk_no_nested(f.node) if isinstance(st, (ast.Assign, ast.AugAssign)) and
+                     any(isinstance(x, ast.Name) and x.id == name and isinstance(x.ctx, ast.Store)
+                         for t in (st.targets if isinstance(st, ast.Assign) else [st.target]) for x in ast.walk(t))]
+            if not binds:
+                continue
+            bad = [st for st in binds if not (isinstance(st, ast.Assign) and any(w in norm(st.value) for w in ('struct.unpack_from(', 'Parameter.decode(')))]
+            report.check(not bad, 'C11-R3', key(f.qname, 'length field %s is used as decoded' % name), f.loc(bad[0]) if bad else f.loc(),
+                         '%s re-writes the decoded length field: `%s` -- a frame whose length field does not fit is accepted in altered form instead '
+                         'of being rejected with DecodeError' % (f.qname, norm(bad[0]) if bad else ''))
     report.floor('C11-R3 reads', n_reads, 30)
     report.floor('C11-R3 TLV loops', tlv_loops, 5)
 
@@ -765,5 +778,7 @@ MUTANTS = [
                 raise DecodeError("LTO TLV length error")""", 'C11-R6'),
     ('sdres-encode-length-byte', PDU, "                return struct.pack('>BBBB', T, 2, tid, sap)", "                return struct.pack('>BBBB', T, 3, tid, sap)", 'C11-R6'),
     ('miux-mask', PDU, "                V = V & 0x07FF", "                V = V & 0x03FF", 'C11-R6'),
+    ('agf-entry-length-clamped', PDU, """            agf_pdu.append(decode(data, offset+2, pdu_size))""", """            pdu_size = min(pdu_size, size - 2)
+            agf_pdu.append(decode(data, offset+2, pdu_size))""", 'C11-R3'),
 ]
 MUTANTS = [m for m in MUTANTS if m[4] != 'C11-NONE']
